@@ -15,5 +15,10 @@ theorem flag_appendCopyShareMutex : appendCopyShareMutex = true := by decide +ke
 theorem flag_restoreFiltersById : restoreFiltersById = true := by decide +kernel
 /-- the chunk states a snapshot file holds are read under the chunk's read latch: none of them is a half-applied commit -/
 theorem flag_snapReadLocked : snapReadLocked = true := by decide +kernel
+/-- the recorded log of a snapshot file is complete: every chunk commit asks for the recorder itself, inside its own latch
+    section, after it has applied (a commit of a chunk already written that is not recorded makes every prefix of the file
+    restore to a state the collection never had) -/
+theorem flag_commitClosureOrder : commitClosureOrder = true := by decide +kernel
+theorem flag_snapshotProtocol : snapshotProtocol = true := by decide +kernel
 
 end ColumnVerif.Props.C13skel
